@@ -197,6 +197,81 @@ def run(p, report, tier):
     if not mf.reported:
         report.add("R15.6", "NICKernelRegressor.fit", "per-sample arrays read through the labeled mask", f"{nf.file}:{nf.node.lineno}",
                    bool(mf.mask_names), detail=f"{mf.sinks} sink(s) checked")
+    # ---- R15.7 helpers of the kernel regressors do not write into their arguments; fallback samples are scaled, then shifted
+    report.rule("R15.7", "the parameter-combination helpers of the kernel regressors never write into the arrays they "
+                "are given (the neutral cold-start parameters are one shared array); the fallback samples of "
+                "SklearnRegressor are scaled by _label_std before they are shifted by _label_mean", floor=3)
+    from ..absint import Interp
+    from ..effects import writes
+    nmod = p.modules["skactiveml.regressor._nic_kernel_regressor"]
+    targets = [(None, fn) for fn in nmod.functions.values()]
+    for cname in ("NICKernelRegressor", "NadarayaWatsonRegressor"):
+        cix = p.get_class(cname)
+        for m in cix.methods.values():
+            if m.name.startswith("_") and not m.name.startswith("__"):
+                targets.append((cix, m))
+    seen_t = set()
+    for cix, fn in targets:
+        if id(fn.node) in seen_t:
+            continue
+        seen_t.add(id(fn.node))
+        it = Interp(p)
+        it.run_entity(cix, fn)
+        hit = {}
+        for w in writes(it.events, roots=(), include_params=True):
+            if str(w.how).startswith("draw:"):
+                continue
+            hit.setdefault(w.loc[0][2:], w)
+        for pn in fn.all_param_names():
+            if pn == "self":
+                continue
+            w = hit.get(pn)
+            report.add("R15.7", fn.qual, f"argument `{pn}` is not written", f"{fn.file}:{(w.ev.node if w else fn.node).lineno}",
+                       w is None, detail="no in-place write" if w is None else
+                       f"`{norm_stmt(w.ev.node, 60)}` writes into the caller's array ({w.how}): the cold-start parameters are "
+                       "one array referenced four times, so the prior mean / scale are corrupted")
+    # augmented assignment on (an alias of) a parameter or of an element unpacked from a parameter is an
+    # in-place write for arrays
+    for cix, fn in targets:
+        if id(fn.node) not in seen_t:
+            continue
+        params_ = {a for a in fn.all_param_names() if a != "self"}
+        alias = set(params_)
+        grew = True
+        while grew:
+            grew = False
+            for n in ast.walk(fn.node):
+                if isinstance(n, ast.Assign) and isinstance(n.value, ast.Name) and n.value.id in alias:
+                    for t in n.targets:
+                        for e_ in (t.elts if isinstance(t, (ast.Tuple, ast.List)) else [t]):
+                            if isinstance(e_, ast.Name) and e_.id not in alias:
+                                alias.add(e_.id)
+                                grew = True
+        # names re-bound to a fresh value before the write are no aliases any more (line order)
+        for n in ast.walk(fn.node):
+            if isinstance(n, ast.AugAssign) and isinstance(n.target, ast.Name) and n.target.id in alias:
+                fresh = [a for a in ast.walk(fn.node) if isinstance(a, ast.Assign) and a.lineno < n.lineno
+                         and any(isinstance(t, ast.Name) and t.id == n.target.id for t in a.targets)
+                         and not (isinstance(a.value, ast.Name) and a.value.id in alias)
+                         and not isinstance(a.targets[0], (ast.Tuple, ast.List))]
+                if fresh:
+                    continue
+                report.add("R15.7", fn.qual, f"`{norm_stmt(n, 50)}` on an alias of an argument", f"{fn.file}:{n.lineno}", False,
+                           detail="augmented assignment writes into the caller's array in place (the neutral cold-start "
+                                  "parameters are one shared array)")
+    # order of the affine map of the fallback samples
+    scale = shift = None
+    smp_n = inline_temporaries(smp.node)
+    for n in ast.walk(smp_n):
+        if isinstance(n, ast.AugAssign) and isinstance(n.target, ast.Name):
+            if isinstance(n.op, ast.Mult) and "_label_std" in ast.unparse(n.value):
+                scale = n
+            if isinstance(n.op, ast.Add) and "_label_mean" in ast.unparse(n.value):
+                shift = n
+    if scale is not None and shift is not None:
+        okord = scale.lineno < shift.lineno and ast.unparse(scale.target) == ast.unparse(shift.target)
+        report.add("R15.7", smp.qual, "fallback samples: `*= _label_std` before `+= _label_mean`", f"{smp.file}:{shift.lineno}", okord,
+                   detail="std * z + mean" if okord else "the shift is applied before the scale: samples follow N(mean * std, std)")
     report.assumptions += ["finiteness and sign of standard deviations and agreement as numbers are not decided",
                            "scipy.stats frozen distributions implement mean/std/entropy/rvs coherently"]
 
